@@ -415,7 +415,7 @@ def _first_bad(C, got, want):
 
 SPECIAL_FORMULAS = ["y ~ s", "y ~ x + x:s", "y ~ 0 + xz0:s + x", "y ~ h + h:s", "y ~ x + (1 | g)", "y ~ (0 + s | g)", "y ~ x + (x:s | g)",
                     "y ~ C(s, levels=lv_s)", "y ~ x + C(kbig)", "y ~ (1 | kbig)", "y ~ T(s, ref_s):x + (C(s, levels=lv_s) | g)"]
-SPECIAL_KINDS = ["missing", "zero-product", "unseen"]
+SPECIAL_KINDS = ["missing", "zero-product", "unseen", "two-unseen"]
 
 
 def judge_special(seed, formula, kind, m):
@@ -455,6 +455,13 @@ def judge_special(seed, formula, kind, m):
         if col == "kbig":
             return
         bad[col] = pd.Series([np.nan if r in S else v for r, v in enumerate(bad[col].tolist())], dtype="str")
+    elif kind == "two-unseen":
+        # two different unseen values that cannot be compared with each other (text, a number, a missing value)
+        if col == "kbig":
+            return
+        others = ["ZZ new", 17, None]
+        vals = [others[list(S).index(r) % 3] if r in S else v for r, v in enumerate(bad[col].tolist())]
+        bad[col] = pd.Series(vals, dtype=object)
     else:
         unseen = 10 ** 17 + 9 if col == "kbig" else "ZZ new"
         vals = [unseen if r in S else v for r, v in enumerate(bad[col].tolist())]
